@@ -605,6 +605,9 @@ pub const SET_OPTS: &[&str] = &[
     // plain variables whose expressions look at the input - there is none when they are
     // calculated - and still have a value (11, 12, 13)
     "dflt=(default .g \"none\")", "isnum=(stringify (number? .))", "isobj=(? (object? .) 1 2)",
+    // a macro whose body refers to an earlier selection by name (14): what it sees depends on
+    // where it is expanded
+    "@ref=/c0/",
 ];
 
 pub const SET_USERS: &[&str] = &[
@@ -614,6 +617,7 @@ pub const SET_USERS: &[&str] = &[
     "(? (= .g \"a\") (define \"unit\" .g @show) @show)",
     "(? (> .n 0) (define \"inc\" (- . 1) (map .arr @inc)) (map .arr @inc))",
     "(concat :dflt \"-\" .g)", "(stringify :isnum)", "(+ :isobj .id)",
+    "(map .arr (default @ref 7))", "(stringify @ref)",
 ];
 
 #[derive(Clone, Copy, Debug)]
@@ -705,6 +709,10 @@ fn set_users_for(chosen: &[usize]) -> Vec<usize> {
     if has(13) {
         v.push(13);
     }
+    if has(14) {
+        v.push(14);
+        v.push(15);
+    }
     v
 }
 
@@ -748,6 +756,8 @@ pub fn gen_pipe(rng: &mut Rng, wish: &PipeWish) -> Pipe {
         } else {
             *rng.pick(FILTER_EXPRS)
         };
+        // (a macro that refers to a selection, expanded where no selection exists yet)
+        let f = if chosen_sets.contains(&14) && rng.chance(1, 2) { "(not (number? @ref))" } else { f };
         opts.push(vec![format!("--filter={f}")]);
     }
     let mut selects = 0;
